@@ -1062,3 +1062,83 @@ def allowed_shapes_contract():
                  raises=lambda S, a, e: z3.BoolVal(False), hooks={"msk": hook_msk})
     c.loop_select = lambda node: ls
     return c
+
+
+# ------------------------------------------------------------- the pprint writers of duplicate_checker.main / check_results (C02, C03, C14)
+def _with_for_path(fnode, fragment, which=0):
+    hits = []
+    for n in _ast.walk(fnode):
+        if isinstance(n, _ast.With) and n.items and isinstance(n.items[0].context_expr, _ast.Call) and getattr(n.items[0].context_expr.func, "id", None) == "open":
+            a0 = n.items[0].context_expr.args[0] if n.items[0].context_expr.args else None
+            if a0 is not None and fragment in _ast.dump(a0):
+                mode = n.items[0].context_expr.args[1] if len(n.items[0].context_expr.args) > 1 else None
+                if isinstance(mode, _ast.Constant) and "w" in str(mode.value) or isinstance(mode, _ast.Constant) and "a" in str(mode.value):
+                    hits.append(n)
+    hits.sort(key=lambda n: n.lineno)
+    return [hits[which]] if which < len(hits) else None
+
+
+def line_writer_contract(qual, fragment, lists, which=0, mode="w", rank0=True, ints=()):
+    """A `with open(<path containing fragment>, mode)` block that writes the strings (or numbers) of `lists` (names, in this order), one
+    per iteration, with PrettyPrinter.pprint or print(file=): the file gets exactly len(list_1) + len(list_2) + ... physical lines, in list
+    order -- line i of the file is item i.  (A-str: a function string has no line break, backslash, quote or control character.)"""
+    from pyvc.engine import LoopSpec
+    from pyvc.models import STRLEN, STRNL
+
+    def mk(name):
+        def f(eng, st):
+            if name in ints:
+                return eng.fresh(T.list(T.int), name, st)
+            v = eng.fresh(T.list(T.label), name, st)
+            g = st.heap[v.addr].get
+            k = z3.Int("k!astr")
+            t = g(k).t
+            if z3.is_app(t) and t.decl().kind() == z3.Z3_OP_UNINTERPRETED:
+                eng.axioms.append(z3.ForAll([k], z3.And(STRLEN(t) >= 1, STRNL(t) == 0), patterns=[t]))
+            return v
+        return f
+
+    def setup(eng, st, args):
+        if rank0:
+            st.env["rank"] = VInt(0)
+        from pyvc.models import str_len
+        str_len(eng, eng.label_of("\n"))
+        st.ghost["lens"] = [st.heap[args[n].addr].len for n in lists]
+
+    def inv_for(j):
+        def inv(S, st):
+            i = S.i(S.var("__i"))
+            before = sum(st.ghost["lens"][:j], z3.IntVal(0)) if j else z3.IntVal(0)
+            out = [("one line per item written so far", S.var("__lines").t == before + i)]
+            if "w" in st.env and "pp" in st.env:
+                pp = st.heap[S.var("pp").addr]
+                out.append(("the printer's width is the current w and at least 80", z3.And(S.var("w").t >= 80, S.eng.as_int(pp.fields["width"]) == S.var("w").t)))
+            return out
+        return inv
+
+    counter = {"n": 0, "seen": {}}
+
+    def loop_select(node):
+        key = id(node)
+        if key not in counter["seen"]:
+            counter["seen"][key] = counter["n"]
+            counter["n"] += 1
+        ls = LoopSpec(inv_for(counter["seen"][key]), havoc_types={"s": T.label, "pp": T("obj", "PrettyPrinter", (("width", T.int),))})
+        ls.ghost = ["__lines"]
+        return ls
+
+    def ensures(S, a, res):
+        wr = S.st.ghost.get("written", ())
+        total = sum(S.st.ghost["lens"], z3.IntVal(0))
+        if len(wr) != 1:
+            return [("exactly one file is written by this block", z3.BoolVal(False))]
+        path, md, lines, lineno = wr[0]
+        return [("the file gets exactly one physical line per item of %s, in order" % " + ".join(lists), lines == total),
+                ("the file is opened in mode %r" % mode, z3.BoolVal(md == mode))]
+
+    params = {n: mk(n) for n in lists}
+    params.update({"dirname": T.label, "compl": T.int})
+    c = Contract(qual, params, ensures=ensures, setup=setup, region=lambda fnode: _with_for_path(fnode, fragment, which), raises=lambda S, a, e: z3.BoolVal(False))
+    c.loop_select = loop_select
+    c.region_name = "writer of %s (%s)" % (fragment, " + ".join(lists))
+    return c
